@@ -542,7 +542,10 @@ def translate(repo):
         nc = find_class(tree, "NetrefClass")
         getter = func_shape(find_func(nc, "__get__")) == DESCRIPTOR_GET
         props = {n.name: _u(n.body[-1]) for n in nc.body if isinstance(n, ast.FunctionDef) and n.name in ("instance", "owner")}
-        getter = getter and props == {"instance": "return self._class_obj", "owner": "return self._class_obj.__class__"}
+        # owner: the class of the class object, read as an attribute (original) or taken from the object's type (repaired): the same
+        # class for every real class; the model only says "the metaclass"
+        getter = getter and props.get("instance") == "return self._class_obj" \
+            and props.get("owner") in ("return self._class_obj.__class__", "return type(self._class_obj)") and len(props) == 2
         cf = func_shape(find_func(tree, "class_factory"))
         # the class is looked up by its module-qualified name: with getattr on the module (pinned tree) or in the module's own
         # namespace only (repaired tree, d03f463: no module-level __getattr__ hook is run for a peer-chosen name)
